@@ -224,6 +224,18 @@ func init() {
 			in.spawnNamed(fr, fr.callpos, a[1], nil, nil, in.mustStr(a[0], "vfGo"), true)
 			return nil
 		},
+		"vfAnd": func(in *Interp, fr *frame, fn *ssa.Function, a []value) value {
+			return in.tc.And(a[0].(*Term), a[1].(*Term))
+		},
+		"vfOr": func(in *Interp, fr *frame, fn *ssa.Function, a []value) value {
+			return in.tc.Or(a[0].(*Term), a[1].(*Term))
+		},
+		"vfImplies": func(in *Interp, fr *frame, fn *ssa.Function, a []value) value {
+			return in.tc.Implies(a[0].(*Term), a[1].(*Term))
+		},
+		"vfIteInt": func(in *Interp, fr *frame, fn *ssa.Function, a []value) value {
+			return in.tc.Ite(a[0].(*Term), a[1].(*Term), a[2].(*Term))
+		},
 		"vfTier": func(in *Interp, fr *frame, fn *ssa.Function, a []value) value {
 			return in.i64(int64(in.w.ex.tier))
 		},
@@ -876,13 +888,13 @@ func registerSync() {
 // ---------- context ----------
 
 type EngCtx struct {
-	parent   *EngCtx
-	key, val value
-	done     *Chan
-	err      value // iface
-	hasDL    bool
-	deadline Instant
-	children []*EngCtx
+	parent     *EngCtx
+	key, val   value
+	done       *Chan
+	err        value // iface
+	hasDL      bool
+	deadline   Instant
+	children   []*EngCtx
 	cancelable bool
 }
 
